@@ -292,7 +292,8 @@ inductive Item where
   | other (o : Other)
   deriving DecidableEq, Repr
 
-/-! ### Tables (`VecMap` = array of options, modelled as an association list) -/
+/-! ### Tables (`BTreeMap<usize, _>`, modelled as an association list; before the repair of finding
+D18 they were `VecMap`s — arrays of options indexed by the client id, see `Legacy` below) -/
 
 def tGet {β : Type} : List (Nat × β) → Nat → Option β
   | [], _ => none
@@ -315,12 +316,11 @@ def zipAdd : List Int → List Int → List Int
 
 /-! ### Reader state -/
 
-/-- What the model needs to know about the environment: the format version (`has_ex`) and the
-number of `VecMap` slots the machine can allocate (`VecMap::insert(cid, _)` resizes the backing
-vector to `cid + 1` entries; see finding D18). -/
+/-- What the reader knows from the header: the format version (`has_ex`).  (Before the repair of
+finding D18 the model also needed the number of `VecMap` slots the machine can allocate; the tables
+are sparse maps now and an insertion costs one node whatever the client id is.) -/
 structure Cfg where
   hasEx : Bool
-  memCids : Nat
   deriving Repr
 
 structure Reader where
@@ -374,12 +374,10 @@ inductive Post where
   | item (it : Item) (rd : Reader)
   | finished (rd : Reader)
   | err (e : Err) (rd : Reader)
-  /-- `VecMap::insert` with a client id beyond what the machine can allocate (D18) -/
-  | oom (rd : Reader)
 
 def maxInt (a b : Int) : Int := if a ≥ b then a else b
 
-def Reader.post (cfg : Cfg) (rd0 : Reader) (it : FItem) : Post :=
+def Reader.post (rd0 : Reader) (it : FItem) : Post :=
   let rd : Reader := match it.cid with
     | some c => { rd0 with maxCid := maxInt rd0.maxCid c }
     | none => rd0
@@ -405,7 +403,6 @@ def Reader.post (cfg : Cfg) (rd0 : Reader) (it : FItem) : Post :=
   | .playerNew cid x y =>
     let rd := { rd with prevCid := some cid }
     if cid < 0 then .err .invalidClientId rd
-    else if cid.toNat ≥ cfg.memCids then .oom rd
     else match tGet rd.players cid.toNat with
       -- `insert` has already replaced the value when the duplicate is noticed
       | some _ => .err .playerNewDuplicate { rd with players := tSet rd.players cid.toNat (x, y) }
@@ -425,7 +422,6 @@ def Reader.post (cfg : Cfg) (rd0 : Reader) (it : FItem) : Post :=
         .item (.input cid n) { rd with inputs := tSet rd.inputs cid.toNat n }
   | .inputNew cid new =>
     if cid < 0 then .err .invalidClientId rd
-    else if cid.toNat ≥ cfg.memCids then .oom rd
     else .item (.input cid new) { rd with inputs := tSet rd.inputs cid.toNat new }
   | .finish => .finished rd
 
@@ -571,12 +567,11 @@ inductive ReadRes where
   | item (it : Item) (rd : Reader) (b : Buffer) (c : Cb)
   | finished (rd : Reader)
   | err (e : Err) (rd : Reader)
-  | oom (rd : Reader)
   | cbErr (rd : Reader)
   | outOfFuel
 
 /-- `Reader::read` from the point where the item kind is known (`rd.nextKind` has been taken). -/
-def Reader.readWithKind (cfg : Cfg) (rd : Reader) (k : Kind) (b : Buffer) (c : Cb) : ReadRes :=
+def Reader.readWithKind (_cfg : Cfg) (rd : Reader) (k : Kind) (b : Buffer) (c : Cb) : ReadRes :=
   match rd.pre k with
   | .emit it rd' => .item it rd' b c
   | .err e => .err e rd
@@ -586,11 +581,10 @@ def Reader.readWithKind (cfg : Cfg) (rd : Reader) (k : Kind) (b : Buffer) (c : C
     | .cbErr => .cbErr rd
     | .outOfFuel => .outOfFuel
     | .ok fit b c =>
-      match rd.post cfg fit with
+      match rd.post fit with
       | .item it rd' => .item it rd' b c
       | .finished rd' => .finished rd'
       | .err e rd' => .err e rd'
-      | .oom rd' => .oom rd'
 
 /-- `Reader::read` -/
 def Reader.read (cfg : Cfg) (rd : Reader) (b : Buffer) (c : Cb) : ReadRes :=
@@ -608,7 +602,6 @@ def Reader.read (cfg : Cfg) (rd : Reader) (b : Buffer) (c : Cb) : ReadRes :=
 inductive Final where
   | finished
   | err (e : Err)
-  | oom
   /-- the read callback failed: `Error::Cb(e)` / `Error::Io(e)` -/
   | cbErr
   | outOfFuel
@@ -631,7 +624,6 @@ def runItems (cfg : Cfg) : Nat → Reader → Buffer → Cb → Output
     | .item it rd' b' c' => (runItems cfg fuel rd' b' c').cons it
     | .finished rd' => ⟨[], .finished, rd'.cidsEnd⟩
     | .err e rd' => ⟨[], .err e, rd'.cidsEnd⟩
-    | .oom rd' => ⟨[], .oom, rd'.cidsEnd⟩
     | .cbErr rd' => ⟨[], .cbErr, rd'.cidsEnd⟩
     | .outOfFuel => ⟨[], .outOfFuel, rd.cidsEnd⟩
 
@@ -639,16 +631,14 @@ def runItems (cfg : Cfg) : Nat → Reader → Buffer → Cb → Output
 byte and leads to at most four calls. -/
 def readFuel (n : Nat) : Nat := 4 * n + 8
 
-/-- The environment of a whole reading: the external header-content parser and the number of
-`VecMap` slots the machine can allocate. -/
+/-- The environment of a whole reading: the external header-content parser. -/
 structure Env where
   json : List UInt8 → Except Nat Int
-  memCids : Nat
 
 /-- `Reader::from_header` -/
-def Env.cfgOf (env : Env) (v : Int) : Option Cfg :=
-  if v = 1 then some { hasEx := false, memCids := env.memCids }
-  else if v = 2 then some { hasEx := true, memCids := env.memCids }
+def Env.cfgOf (_env : Env) (v : Int) : Option Cfg :=
+  if v = 1 then some { hasEx := false }
+  else if v = 2 then some { hasEx := true }
   else none
 
 /-- `Reader::new` followed by `read` until the end, for a given callback. -/
@@ -778,13 +768,12 @@ def interp (cfg : Cfg) (rd : Reader) : List Rec → Tail → Output
     | (its, .stuck) => ⟨its, .outOfFuel, rd.cidsEnd⟩
     | (its, .err e rd') => ⟨its, .err e, rd'.cidsEnd⟩
     | (its, .ready rd') =>
-      match rd'.post cfg r.item with
+      match rd'.post r.item with
       | .item it rd'' =>
         let o := interp cfg rd'' rs tail
         { o with items := its ++ it :: o.items }
       | .finished rd'' => ⟨its, .finished, rd''.cidsEnd⟩
       | .err e rd'' => ⟨its, .err e, rd''.cidsEnd⟩
-      | .oom rd'' => ⟨its, .oom, rd''.cidsEnd⟩
 
 /-- What reading the stream `s` (the bytes after the header) yields, independent of any buffer. -/
 def runWhole (cfg : Cfg) (s : List UInt8) : Output :=
@@ -802,5 +791,60 @@ def reference (env : Env) (total : List UInt8) : Output :=
     match env.cfgOf v with
     | none => ⟨[], .err .unknownVersion, 0⟩
     | some cfg => runWhole cfg rest
+
+/-! ### The reader before the repair of finding D18 (kept so that the history stays visible)
+
+Until the repair (`fix: teehistorian: Reader keeps player and input state in sparse maps`) the tables
+`players`/`inputs` were `vec_map::VecMap`s: arrays of options indexed by the client id.
+`VecMap::insert(cid, _)` resizes the backing vector to `cid + 1` entries, so one five-byte
+`PLAYER_NEW`/`INPUT_NEW` record with a large client id asked for up to 24 GiB + 88 GiB.  The legacy
+semantics below are the reference semantics of that reader on a machine that can allocate `slots`
+table entries; `none` stands for the failed allocation (process abort — or, observed, a machine
+that swaps itself to a halt).  Everything else is shared with the current model. -/
+namespace Legacy
+
+/-- The table slot the old `Reader::read` calls `VecMap::insert` with. -/
+def slotOf : FItem → Option Nat
+  | .playerNew cid _ _ => if cid < 0 then none else some cid.toNat
+  | .inputNew cid _ => if cid < 0 then none else some cid.toNat
+  | _ => none
+
+/-- The part of the old `Reader::read` after `read_item`; `none` = the table cannot be resized. -/
+def post (slots : Nat) (rd : Reader) (it : FItem) : Option Post :=
+  match slotOf it with
+  | some c => if c ≥ slots then none else some (rd.post it)
+  | none => some (rd.post it)
+
+/-- `interp` with the old tables. -/
+def interp (slots : Nat) (cfg : Cfg) (rd : Reader) : List Rec → Tail → Option Output
+  | [], tail => some (Teehistorian.interp cfg rd [] tail)
+  | r :: rs, tail =>
+    match preAll 4 rd r.kind with
+    | (its, .stuck) => some ⟨its, .outOfFuel, rd.cidsEnd⟩
+    | (its, .err e rd') => some ⟨its, .err e, rd'.cidsEnd⟩
+    | (its, .ready rd') =>
+      match post slots rd' r.item with
+      | none => none
+      | some (.item it rd'') =>
+        match interp slots cfg rd'' rs tail with
+        | none => none
+        | some o => some { o with items := its ++ it :: o.items }
+      | some (.finished rd'') => some ⟨its, .finished, rd''.cidsEnd⟩
+      | some (.err e rd'') => some ⟨its, .err e, rd''.cidsEnd⟩
+
+def runWhole (slots : Nat) (cfg : Cfg) (s : List UInt8) : Option Output :=
+  let r := parseAll cfg.hasEx (s.length + 1) s
+  interp slots cfg Reader.empty r.1 r.2
+
+/-- What the old reader made of the whole file `total` (header included). -/
+def reference (slots : Nat) (env : Env) (total : List UInt8) : Option Output :=
+  match pHeader env.json total with
+  | .ok (.version v) rest =>
+    match env.cfgOf v with
+    | some cfg => runWhole slots cfg rest
+    | none => some (Teehistorian.reference env total)
+  | _ => some (Teehistorian.reference env total)
+
+end Legacy
 
 end Tw.Teehistorian
